@@ -23,6 +23,7 @@ import (
 	"database/sql/driver"
 
 	"seata.apache.org/seata-go/pkg/tm"
+	"seata.apache.org/seata-go/pkg/util/log"
 )
 
 type FenceTx struct {
@@ -33,6 +34,11 @@ type FenceTx struct {
 
 func (tx *FenceTx) Commit() error {
 	if err := tx.TargetTx.Commit(); err != nil {
+		// the business transaction did not commit: do not keep the fence record either
+		tx.clearFenceTx()
+		if rollbackErr := tx.TargetFenceTx.Rollback(); rollbackErr != nil {
+			log.Errorf("rollback fence transaction error: %v", rollbackErr)
+		}
 		return err
 	}
 
@@ -42,6 +48,10 @@ func (tx *FenceTx) Commit() error {
 
 func (tx *FenceTx) Rollback() error {
 	if err := tx.TargetTx.Rollback(); err != nil {
+		tx.clearFenceTx()
+		if rollbackErr := tx.TargetFenceTx.Rollback(); rollbackErr != nil {
+			log.Errorf("rollback fence transaction error: %v", rollbackErr)
+		}
 		return err
 	}
 
